@@ -89,22 +89,26 @@ func prepare(fc *FaultCase) ([][]preparedBatch, error) {
 }
 
 // applyFaults returns the altered clone, whether the main payload (index 0)
-// was touched by any fault, and whether every fault was applicable.
-func applyFaults(bar *colarspb.BatchArrowRecords, faults []Fault, retired []string) (*colarspb.BatchArrowRecords, bool, bool) {
+// was damaged by any fault (relabelled, dropped, emptied, re-id'd, or made
+// ambiguous by another payload relabelled to the main type), how many intact
+// copies of the main record the batch holds (duplication faults), and whether
+// every fault was applicable.
+func applyFaults(bar *colarspb.BatchArrowRecords, faults []Fault, retired []string) (*colarspb.BatchArrowRecords, bool, int, bool) {
 	b := proto.Clone(bar).(*colarspb.BatchArrowRecords)
 	mainTouched := false
+	mainCopies := 1
 	// track where the original main payload currently sits
 	mainAt := 0
 	for _, f := range faults {
 		n := len(b.ArrowPayloads)
 		if f.I < 0 || f.I >= n {
-			return nil, false, false
+			return nil, false, 0, false
 		}
 		pl := b.ArrowPayloads[f.I]
 		switch f.Kind {
 		case "relabel":
 			if colarspb.ArrowPayloadType(f.Type) == pl.Type {
-				return nil, false, false
+				return nil, false, 0, false
 			}
 			pl.Type = colarspb.ArrowPayloadType(f.Type)
 			if f.I == mainAt {
@@ -123,20 +127,20 @@ func applyFaults(bar *colarspb.BatchArrowRecords, faults []Fault, retired []stri
 		case "dup":
 			b.ArrowPayloads = append(b.ArrowPayloads, proto.Clone(pl).(*colarspb.ArrowPayload))
 			if f.I == mainAt {
-				mainTouched = true
+				mainCopies++
 			}
 		case "dup_adjacent":
 			cl := proto.Clone(pl).(*colarspb.ArrowPayload)
 			rest := append([]*colarspb.ArrowPayload{cl}, b.ArrowPayloads[f.I+1:]...)
 			b.ArrowPayloads = append(b.ArrowPayloads[:f.I+1:f.I+1], rest...)
 			if f.I == mainAt {
-				mainTouched = true
+				mainCopies++
 			} else if f.I < mainAt {
 				mainAt++
 			}
 		case "swap":
 			if f.J < 0 || f.J >= n || f.J == f.I {
-				return nil, false, false
+				return nil, false, 0, false
 			}
 			b.ArrowPayloads[f.I], b.ArrowPayloads[f.J] = b.ArrowPayloads[f.J], b.ArrowPayloads[f.I]
 			if f.I == mainAt {
@@ -156,17 +160,22 @@ func applyFaults(bar *colarspb.BatchArrowRecords, faults []Fault, retired []stri
 			}
 		case "stale_id":
 			if len(retired) == 0 {
-				return nil, false, false
+				return nil, false, 0, false
 			}
 			pl.SchemaId = retired[f.J%len(retired)]
 			if f.I == mainAt {
 				mainTouched = true
 			}
 		default:
-			return nil, false, false
+			return nil, false, 0, false
 		}
 	}
-	return b, mainTouched, true
+	if mainCopies > 1 && mainTouched {
+		// copies made before/after the main payload was damaged: do not reason
+		// about how many intact main records are left
+		mainCopies = 1
+	}
+	return b, mainTouched, mainCopies, true
 }
 
 type sessionStats struct {
@@ -180,8 +189,10 @@ type sessionStats struct {
 //
 //	(a) no panic anywhere in the session (including Close);
 //	(b) damaged batch: if the call succeeds and the main payload was not
-//	    touched by any fault, the number of decoded items equals the main
-//	    record's row count (the remainder may lack attributes, never items);
+//	    damaged by any fault, the number of decoded items equals the row count
+//	    of the main record times the number of copies of it present in the
+//	    batch (the remainder may lack attributes, never the items of a main
+//	    record that was present: a duplicated main payload is two main records);
 //	(c) an unaltered batch on sub-streams that are intact decodes without
 //	    error to the telemetry that was encoded.
 func runSession(prep [][]preparedBatch, faults [][]Fault, st *sessionStats) string {
@@ -205,10 +216,10 @@ outer:
 		for j, pb := range seg {
 			last := j == len(seg)-1
 			if last && k < len(faults) && len(faults[k]) > 0 {
-				fb, mainTouched, ok := applyFaults(pb.bar, faults[k], retired)
+				fb, mainTouched, mainCopies, ok := applyFaults(pb.bar, faults[k], retired)
 				if !ok {
 					// inapplicable fault list: treat the batch as unaltered
-					fb, mainTouched = proto.Clone(pb.bar).(*colarspb.BatchArrowRecords), false
+					fb, mainTouched, mainCopies = proto.Clone(pb.bar).(*colarspb.BatchArrowRecords), false, 1
 					faults[k] = nil
 				}
 				if len(faults[k]) > 0 {
@@ -222,10 +233,10 @@ outer:
 					case d.Panic != nil:
 						msg = fmt.Sprintf("segment %d batch %d (%s) damaged by %v: consumer panicked: %s", k, j, pb.signal, faults[k], d.Panic)
 						break outer
-					case d.Err == nil && !mainTouched && d.Items != pb.items:
-						msg = fmt.Sprintf("segment %d batch %d (%s) damaged by %v: consumer returned success with %d of the %d items of the main record that was present", k, j, pb.signal, faults[k], d.Items, pb.items)
+					case d.Err == nil && !mainTouched && d.Items != pb.items*mainCopies:
+						msg = fmt.Sprintf("segment %d batch %d (%s) damaged by %v: consumer returned success with %d items although the batch held %d intact main record(s) of %d items each (a main record that was present was discarded)", k, j, pb.signal, faults[k], d.Items, mainCopies, pb.items)
 						break outer
-					case d.Err == nil && d.Items == pb.items:
+					case d.Err == nil && d.Items == pb.items*mainCopies:
 						cls = "ok_all_items"
 					case d.Err == nil:
 						cls = "ok_main_touched"
